@@ -51,6 +51,8 @@ structure File where
   id : Nat
   name : Bytes
   version : Nat
+  /-- `xml_standalone`: the attribute of the xml header the file was loaded with -/
+  standalone : Option Bool := none
   deriving Repr, Inhabited
 
 structure Model where
@@ -68,6 +70,9 @@ structure World where
   nextFile : Nat
   /-- headers of elements that were removed (stale handles): no content, no parent, no file set -/
   dead : List Hdr
+  /-- every file ever created: (file id, model it was created in) — `ArxmlFile::model()` still answers for a file that
+  was removed from its model -/
+  fileOwner : List (Nat × Nat) := []
   deriving Repr, Inhabited
 
 /-- answer of a state-changing request: `ok` with a payload (new handles, …), or an error -/
@@ -99,6 +104,16 @@ structure Env where
   nmDefinitionRef : Nat  -- ElementName::DefinitionRef
   latest : Nat   -- AutosarVersion::LATEST
   nmDest : Nat   -- AttributeName::Dest (same as Spec.atDest)
+  /-- `ElementName::from_bytes`, `AttributeName::from_bytes` -/
+  elemOf : Bytes → Option Nat := fun _ => none
+  attrOf : Bytes → Option Nat := fun _ => none
+  /-- `AutosarVersion::from_str` on the name of the xsd file -/
+  verOfFile : Bytes → Option Nat := fun _ => none
+  /-- `AutosarVersion::filename` -/
+  fileOfVer : Nat → Bytes := fun _ => []
+  atXmlns : Nat := 0          -- AttributeName::xmlns
+  atXmlnsXsi : Nat := 0       -- AttributeName::xmlnsXsi
+  atSchemaLocation : Nat := 0 -- AttributeName::xsiSchemalocation
 
 namespace Items
 
@@ -183,6 +198,24 @@ def setParents (p : PRef) : Items → Items
   | nil => nil
   | elem h k r => elem { h with parent := p } k (setParents p r)
   | text c r => text c (setParents p r)
+
+/-- apply `f` to the headers of the direct child elements -/
+def mapKidHdrs (f : Hdr → Hdr) : Items → Items
+  | nil => nil
+  | elem h k r => elem (f h) k (mapKidHdrs f r)
+  | text c r => text c (mapKidHdrs f r)
+
+/-- apply `f` to every header of the forest -/
+def mapHdrs (f : Hdr → Hdr) : Items → Items
+  | nil => nil
+  | elem h k r => elem (f h) (mapHdrs f k) (mapHdrs f r)
+  | text c r => text c (mapHdrs f r)
+
+/-- all headers of the forest, preorder -/
+def hdrs : Items → List Hdr
+  | nil => []
+  | elem h k r => h :: (k.hdrs ++ r.hdrs)
+  | text _ r => r.hdrs
 
 def firstItem : Items → Option (Sum (Hdr × Items) CDv)
   | nil => none
